@@ -337,7 +337,7 @@ class Gen:
         """shapes aimed at the interaction of branches"""
         sp, r = self.sp, self.r
         Q = self.Quantity
-        k = r.randrange(16)
+        k = r.randrange(17)
         u = self.unit()
         w = self.unit()
         def q(e):
@@ -393,6 +393,14 @@ class Gen:
             ex = r.choice([num / den, q(3 * num) / q(2 * den), q(num) * r.choice([1, 2]) / den])
             base = r.choice([2, sp.Rational(3, 2), u, q(2 * u), 3 * w])
             return r.choice([base ** ex, base ** ex * w, sp.exp(ex) * u, base ** (ex + 1)])
+        if k == 15:  # NaN as a term of a sum of another dimension (bare, and as a NaN-valued quantity): any dimension
+            qn = Q(sp.nan, dimension=Q(1 * w).dimension)
+            try:
+                self.qreg[qn] = (mpmath.nan, self.ref.ev(1 * w)[1])
+            except (Refuse, Ambiguous):
+                pass
+            return r.choice([sp.Add(q(2 * u), sp.nan, evaluate=False), q(2 * u) + qn, qn + q(3 * u) * r.choice([1, 2]),
+                             sp.Add(sp.nan, q(2 * u) * q(3 * w), evaluate=False), sp.Add(q(5 * u), qn, q(-1 * u), evaluate=False)])
         # any-valued operands deciding an unevaluated Min/Max or surviving in a sum
         a = q(r.choice([-3, 5, 2]) * u)
         return r.choice([sp.Max(q(0 * u), a), sp.Min(q(0 * w), a), sp.Max(a, q(0)), a + sp.oo, sp.Min(a, sp.oo * w), a - a + q(0 * w)])
